@@ -6,6 +6,7 @@ Decided by spec/Lifecycle.tla (Isolation) model-checked by TLC; bound to the cod
  (B) validating the library's recorded events (replays + free-running threads) against the
      contract configuration with TraceLifecycle.tla.
 """
+import json
 import os
 import random
 import time
@@ -17,7 +18,7 @@ from .. import tracecheck as T
 PID = "C15"
 
 
-ACCS = ("comments", "block_comments", "statement")
+ACCS = ("comments", "block_comments", "statement", "multi_line_comment", "set_line")
 
 
 def consts(objs, nstmt, maxruns, variant, *, binding="perobject", reset=ACCS, gran="stmt", hist=False,
@@ -75,6 +76,67 @@ def solo_table(objs, nstmt, variants, arg_names):
                 keys.append((o, nstmt, v, a))
     res = L.solo_results(jobs)
     return dict(zip(keys, res))
+
+
+# ---- call-level histories in FRESH interpreters (process-wide caches / prototypes show only for the first objects of a process) ----
+FRESH_PROGS = {
+    "a": ('CREATE TABLE apachelog (host STRING, ident STRING) ROW FORMAT SERDE \'org.apache.hadoop.hive.serde2.RegexSerDe\' '
+          'WITH SERDEPROPERTIES ("input.regex" = "([^ ]*) ([^ ]*)") STORED AS TEXTFILE; -- ca\n', {}),
+    "b": ("CREATE TABLE [dbo].[t_b] ([x] int, [y] varchar(5)) TBLPROPERTIES ('k1'='v1', 'k2'='v2'); -- cb\nCREATE SEQUENCE sq_b START 5;\n", {"normalize_names": True}),
+    "c": ('CREATE TABLE "T_c" ("Id" int PRIMARY KEY); -- cc\nCREATE TABLE bad (x int, PRIMARY);\n', {"silent": False}),
+}
+FRESH_SRC = r'''
+import sys, json
+sys.path.insert(0, %r)
+import logging; logging.disable(logging.CRITICAL)
+from simple_ddl_parser import DDLParser
+job = json.load(sys.stdin)
+objs, out = {}, {}
+for op, o in job["ops"]:
+    text, flags = job["progs"][o]
+    if op == "construct":
+        objs[o] = DDLParser(text, **flags)
+    else:
+        try:
+            r = ["ok", objs[o].run(output_mode="hql")]
+        except BaseException as e:
+            r = ["exc", type(e).__name__]
+        out.setdefault(o, []).append(r)
+json.dump(out, sys.stdout, default=repr)
+'''
+
+
+def _fresh_task(ops):
+    import subprocess
+    env = dict(os.environ)
+    env.pop(C.GUARD, None)
+    p = subprocess.run([C.PY, "-c", FRESH_SRC % C.REPO], input=json.dumps({"ops": ops, "progs": FRESH_PROGS}), text=True,
+                       stdout=subprocess.PIPE, stderr=subprocess.PIPE, env=env, cwd="/")
+    if p.returncode != 0:
+        return {"error": p.stderr[-500:]}
+    return json.loads(p.stdout)
+
+
+def fresh_histories(V, behs, rnd, n):
+    """call-granularity behaviours -> construct / run sequences, each executed in its own interpreter, compared with solo processes"""
+    hs = []
+    for b in behs:
+        ops = [["construct" if s["a"] == "BuildLexer" else "run", s["o"]] for s in b["hist"] if s["a"] in ("BuildLexer", "StartRun")]
+        if ops not in hs:
+            hs.append(ops)
+    hs = hs if len(hs) <= n else rnd.sample(hs, n)
+    objs = sorted({o for h in hs for _, o in h})
+    solo = {o: _fresh_task([["construct", o], ["run", o]]) for o in objs}
+    res = C.pool().map(_fresh_task, hs, 1)
+    for ops, out in zip(hs, res):
+        if "error" in out:
+            raise C.MachineryError("fresh-interpreter history failed: " + out["error"])
+        for o, runs in out.items():
+            for i, r in enumerate(runs):
+                if r != solo[o][o][0]:
+                    V.mismatch({"kind": "fresh-interpreter history", "object": o, "run": i + 1, "history": [f"{a}({x})" for a, x in ops],
+                                "script": FRESH_PROGS[o][0], "flags": FRESH_PROGS[o][1], "expected_solo": _short(solo[o][o][0]), "observed": _short(r)})
+    return len(hs)
 
 
 def run(tier, seed):
@@ -140,6 +202,8 @@ def run(tier, seed):
             tasks.append((b["hist"], objs, ns, v, runs))
             meta.append((objs, ns, mr, v, gran, b))
     cov["behaviours_exported"] = len(tasks)
+    call_behs = [b for (objs, ns, mr, v, gran, b) in meta if gran == "call"]
+    cov["fresh_interpreter_histories"] = fresh_histories(V, call_behs, rnd, 40 if tier == "quick" else 400)
 
     # ---- 4. replay into the real code (one real thread per object) -----------------------------
     solos = {}
